@@ -434,4 +434,108 @@ example : (ecs_fromCacheItem none none false 2 1600000000 0 false).map (fun r =>
     (ecs_fromCacheItem none none false 2 1400000000 0 false).map (fun r => r.2.filter (·.1 == "set rr.Header().Ttl"))
       = some [("set rr.Header().Ttl", ["1"])] := by decide
 
+/-! ## Round 4: production wiring (`internal/cmd/cache.go`) and the location glue (`locFromReq`) -/
+
+/-- `cacheConfig.toInternal`, all validated inputs: the minimum TTL is passed on unchanged (a
+`time.Duration` on both sides — no unit conversion), the override switch, both counts go to the
+fields of the same meaning, and the type is `none` (1) iff `size` is 0, else `simple` (2) iff the
+file says `simple`, else ECS (3). -/
+theorem cache_toInternal_tr (c : S_cmd_cacheConfig) (o : S_cmd_ttlOverride) (h : c.TTLOverride = some o) :
+    cache_toInternal c = some (some
+      { MinTTL := o.Min.Duration, ECSCount := c.ECSSize, NoECSCount := c.Size,
+        Type' := if c.Size = 0 then 1 else if c.Type' = "simple" then 2 else 3,
+        OverrideCacheTTL := o.Enabled }) := by
+  unfold cache_toInternal
+  by_cases h0 : c.Size = 0
+  · simp [h, h0]
+  · by_cases h1 : c.Type' = "simple" <;> simp [h, h0, h1]
+
+/-- It dereferences `c.TTLOverride` without a check: a missing section is a panic — -/
+theorem cache_toInternal_panic (c : S_cmd_cacheConfig) (h : c.TTLOverride = none) : cache_toInternal c = none := by
+  unfold cache_toInternal
+  by_cases h0 : c.Size = 0
+  · simp [h, h0]
+  · by_cases h1 : c.Type' = "simple" <;> simp [h, h0, h1]
+
+/-- — which `cacheConfig.validate` excludes: an accepted configuration has the section, a positive
+minimum, a known type, a non-negative size and, for the ECS cache, a positive ECS size. -/
+theorem cache_validate_ok (c : S_cmd_cacheConfig) (h : cache_validate (some c) = some none) :
+    ∃ o, c.TTLOverride = some o ∧ 0 < o.Min.Duration ∧ (c.Type' = "simple" ∨ c.Type' = "ecs") ∧ 0 ≤ c.Size ∧
+      (c.Type' = "ecs" → 0 < c.ECSSize) := by
+  unfold cache_validate at h
+  simp only [Option.isNone_some, Bool.false_eq_true, ↓reduceIte, Option.bind_some] at h
+  cases ho : c.TTLOverride with
+  | none =>
+    rw [ho] at h
+    by_cases h1 : c.Type' = "simple" <;> by_cases h2 : c.Type' = "ecs" <;> by_cases h3 : c.Size < 0 <;>
+      by_cases h4 : c.ECSSize ≤ 0 <;> simp [h1, h2, h3, h4, ttl_validate] at h
+  | some o =>
+    rw [ho] at h
+    refine ⟨o, rfl, ?_⟩
+    by_cases h1 : c.Type' = "simple" <;> by_cases h2 : c.Type' = "ecs" <;> by_cases h3 : c.Size < 0 <;>
+      by_cases h4 : c.ECSSize ≤ 0 <;> by_cases h5 : o.Min.Duration ≤ 0 <;>
+      simp [h1, h2, h3, h4, h5, ttl_validate] at h ⊢ <;> omega
+
+/-- The model of the wiring (`Yaml.kind`, `Yaml.cfg`, what the driver's `wire` answers) is what the
+translated `toInternal` computes. -/
+theorem wiring_model (c : S_cmd_cacheConfig) (o : S_cmd_ttlOverride) (h : c.TTLOverride = some o)
+    (hs : 0 ≤ c.Size) (hm : 0 ≤ o.Min.Duration) :
+    ∃ r, cache_toInternal c = some (some r) ∧
+      r.Type' = ((Yaml.kind ⟨c.Type' = "simple", c.Size.toNat, c.ECSSize.toNat, o.Min.Duration.toNat, o.Enabled⟩ : Nat) : Int) + 1 ∧
+      r.MinTTL = ((Yaml.cfg ⟨c.Type' = "simple", c.Size.toNat, c.ECSSize.toNat, o.Min.Duration.toNat, o.Enabled⟩).minTTL : Int) ∧
+      r.OverrideCacheTTL = (Yaml.cfg ⟨c.Type' = "simple", c.Size.toNat, c.ECSSize.toNat, o.Min.Duration.toNat, o.Enabled⟩).override := by
+  refine ⟨_, cache_toInternal_tr c o h, ?_, ?_, rfl⟩
+  · unfold Yaml.kind
+    by_cases h0 : c.Size = 0
+    · simp [h0]
+    · have : c.Size.toNat ≠ 0 := by omega
+      by_cases h1 : c.Type' = "simple" <;> simp [h0, h1, this]
+  · show o.Min.Duration = ((o.Min.Duration.toNat : Nat) : Int)
+    omega
+
+/-- `locFromReq` never panics on a non-nil request info and returns a non-nil location. -/
+theorem locFromReq_no_panic (ri : S_agd_RequestInfo) : ∃ l, locFromReq (some ri) = some (some l) := by
+  unfold locFromReq
+  cases he : ri.ECS with
+  | none =>
+    cases hl : ri.Location with
+    | none => simp [he, hl]
+    | some l => simp [he, hl]
+  | some e =>
+    cases hel : e.Location with
+    | none =>
+      cases hl : ri.Location with
+      | none => simp [he, hel, hl]
+      | some l => simp [he, hel, hl]
+    | some el =>
+      cases hl : ri.Location with
+      | none => by_cases hc : el.Country = "" <;> simp [he, hel, hl, hc]
+      | some l => by_cases hc : el.Country = "" <;> simp [he, hel, hl, hc]
+
+/-- The country `locFromReq` returns: that of the ECS option's location if there is an option with
+a location with a country, else that of the connection's location, else none (`Ecs.ctryOf`). -/
+def ctrySpec (ri : S_agd_RequestInfo) : String :=
+  match ri.ECS.bind (·.Location) with
+  | some el => if el.Country ≠ "" then el.Country else (ri.Location.map (·.Country)).getD ""
+  | none => (ri.Location.map (·.Country)).getD ""
+
+theorem locFromReq_country (ri : S_agd_RequestInfo) :
+    ∃ l, locFromReq (some ri) = some (some l) ∧ l.Country = ctrySpec ri := by
+  unfold locFromReq ctrySpec
+  cases he : ri.ECS with
+  | none =>
+    cases hl : ri.Location with
+    | none => simp [he, hl]
+    | some l => simp [he, hl]
+  | some e =>
+    cases hel : e.Location with
+    | none =>
+      cases hl : ri.Location with
+      | none => simp [he, hel, hl]
+      | some l => simp [he, hel, hl]
+    | some el =>
+      cases hl : ri.Location with
+      | none => by_cases hc : el.Country = "" <;> simp [he, hel, hl, hc]
+      | some l => by_cases hc : el.Country = "" <;> simp [he, hel, hl, hc]
+
 end Agd.Tie.TrC04
